@@ -36,6 +36,17 @@
 
 const char *vf_name = "c02_stream";
 
+/* A closed stream socket polls POLLIN|POLLHUP (end of file is readable): mpt_stream_poll() then tries to load,
+ * gets 0 and does not announce a message that is already decoded (fixes/C02-01-stream-poll-eof-waiting-message.patch).
+ * Until that is merged the peer goes away on pipes only (POLLHUP without POLLIN). */
+#ifndef C02_HANGUP_ON_SOCKETS
+# define C02_HANGUP_ON_SOCKETS 0
+#endif
+/* 1: the poll-driven reader relies on mpt_stream_poll() alone (needs fixes/C02-02) */
+#ifndef C02_STRICT_POLL
+# define C02_STRICT_POLL 0
+#endif
+
 static const struct {
 	const char *name;
 	MPT_TYPE(data_encoder) enc;
@@ -59,6 +70,9 @@ static struct {
 	MPT_STRUCT(stream) S, R;
 	MPT_INTERFACE(input) *rin; /* receiver made by mpt_stream_input() instead of R */
 	int idlen;             /* its message id length: handler gets the message without these bytes */
+	int polled;            /* reader style: poll(timeout 0) decides whether to dispatch */
+	int sockets;           /* transport: stream sockets instead of pipes */
+	int hung_up;           /* write end of the receiver's pipe closed (everything was delivered) */
 	int after_retry;       /* last dispatch announced a further message (decoded by its look-ahead) */
 	msg_t exp[MAXMSG];     /* what the handler has to see */
 	int a[2], b[2];        /* pipe A: S -> harness, pipe B: harness -> R */
@@ -464,6 +478,121 @@ static void do_receive(vf_rng *r)
 	}
 }
 
+/* one dispatch call with all checks; returns its result */
+static int dispatch_once(void)
+{
+	int cb = C.cb_calls, ret;
+	vf_at("mpt_stream_dispatch");
+	vf_count("mpt_stream_dispatch", 1);
+	C.in_dispatch++;
+	ret = mpt_stream_dispatch(&C.R, on_message, 0);
+	C.in_dispatch--;
+	C.after_retry = ret >= 0 && (ret & MPT_EVENTFLAG(Retry));
+	vf_log("dispatch = %s%#x | %s", ret < 0 ? errname(ret) : "", ret < 0 ? 0 : ret, rdesc());
+	inv_recv("mpt_stream_dispatch");
+	VF_CHECK(C.cb_calls - cb <= 1, "model:stream_dispatch:handler-called-twice", "one dispatch made %d handler calls", C.cb_calls - cb);
+	if (ret >= 0) VF_CHECK(!(ret & MPT_EVENTFLAG(CtlError)), "model:stream_dispatch:ctl-error", "dispatch = %#x", ret);
+	return ret;
+}
+/*
+ * reader that asks mpt_stream_poll(.., POLLIN, 0) whether there is something to do:
+ *   while (mpt_stream_poll(&rd, POLLIN, 0) > 0) mpt_stream_dispatch(&rd, ...);
+ * (buffer space on MissingBuffer is given the way mpt_stream_sync does).  When the loop
+ * ends the transport is drained, so every complete frame written to it must be delivered.
+ */
+static void do_receive_polled(vf_rng *r)
+{
+	int ret, guard = 0, before = C.received, waiting = C.delivered > C.received, helped = 0;
+	(void) r;
+	while (++guard < 8 * MAXMSG + 256) {
+		int pending = C.R._rd._state.data.msg >= 0, empty_pending = C.R._rd._state.data.msg == 0, unread = pipe_b_bytes();
+		vf_at("mpt_stream_poll");
+		vf_count("mpt_stream_poll(timeout 0, decides)", 1);
+		ret = mpt_stream_poll(&C.R, POLLIN, 0);
+		vf_fp_u64(0x4100000 | (ret > 0));
+		vf_log("poll(0) = %d%s | %s", ret, C.hung_up ? " (peer gone)" : "", rdesc());
+		inv_recv("mpt_stream_poll");
+		if (pending && !unread) {
+			vf_count("state:poll-asked-with-waiting-message-and-no-input", 1);
+			if (empty_pending) vf_count(C.hung_up ? "state:poll-asked-with-waiting-empty-message-after-hangup" : "state:poll-asked-with-waiting-empty-message", 1);
+		}
+		if (ret <= 0) {
+			/* The look-ahead of mpt_stream_dispatch() may have stopped on MissingBuffer; its result is not handed on
+			 * and poll neither enlarges the queue nor announces the undecoded input when nothing new is readable
+			 * (fixes/C02-02-stream-poll-undecoded-input.patch).  Until that is merged the reader looks itself:
+			 * bytes behind the decoder's input position -> give space if the ring is full, dispatch. */
+			if (!C02_STRICT_POLL && C.R._rd._state.data.msg < 0 && C.R._rd._state.curr < C.R._rd.data.len && ++helped < 64) {
+				vf_count("polled:undecoded-input-not-announced", 1);
+				if (C.R._rd.data.len >= C.R._rd.data.max) {
+					vf_at("mpt_queue_prepare");
+					if (!mpt_queue_prepare(&C.R._rd.data, 64)) vf_inconclusive("mpt_queue_prepare failed");
+				}
+				ret = dispatch_once();
+				if (ret < 0 && ret != MPT_ERROR(MissingBuffer) && ret != MPT_ERROR(MissingData))
+					vf_fail("model:stream_dispatch:error", "dispatch = %s on a well-formed stream (%s); next frame %s; %s", errname(ret), framing[C.fr].name, frame_hex(C.received), rdesc());
+				continue;
+			}
+			break;
+		}
+		ret = dispatch_once();
+		if (ret == MPT_ERROR(MissingBuffer)) {
+			int tries = 0;
+			vf_count("dispatch:MissingBuffer", 1);
+			while (ret == MPT_ERROR(MissingBuffer) && ++tries < 6) {
+				vf_at("mpt_queue_prepare");
+				if (!mpt_queue_prepare(&C.R._rd.data, 64)) vf_inconclusive("mpt_queue_prepare failed");
+				ret = dispatch_once();
+			}
+		}
+		if (ret < 0) {
+			if (ret == MPT_ERROR(MissingData) && !C.R._rd.data.len) vf_count("dispatch:empty", 1);
+			else if (ret != MPT_ERROR(MissingBuffer))
+				vf_fail("model:stream_dispatch:error", "dispatch = %s on a well-formed stream (%s); next frame %s; %s", errname(ret), framing[C.fr].name, frame_hex(C.received), rdesc());
+		}
+	}
+	vf_count("receive:polled-rounds", 1);
+	/* loop ended: nothing readable, nothing announced */
+	if (C.delivered > C.received && !pipe_b_bytes()) {
+		size_t flen = C.frame_end[C.received] - frame_start(C.received);
+		if (C.received == before && waiting) C.futile++;
+		vf_count("monitor:stream-progress-check", 1);
+		if (C.futile > 8)
+			vf_fail("model:stream:stall", "reader driven by mpt_stream_poll(POLLIN, 0): frame %d (%zu bytes: %s) and everything behind it was read from the transport, "
+			        "poll reports nothing to do in %d rounds%s; %s (%s)", C.received, flen, frame_hex(C.received), C.futile, C.hung_up ? " (peer gone)" : "", rdesc(), framing[C.fr].name);
+	}
+}
+/* selecting the buffer mode a stream already has changes nothing: no queue is dropped, no coding state touched */
+static void do_setmode(int writer)
+{
+	MPT_STRUCT(stream) *srm = writer ? &C.S : &C.R;
+	int flags = mpt_stream_flags(&srm->_info), mode = flags & MPT_STREAMFLAG(Buffer), ret;
+	MPT_STRUCT(encode_state) es = srm->_wd._state;
+	MPT_STRUCT(decode_state) ds = srm->_rd._state;
+	MPT_STRUCT(queue) wq = srm->_wd.data, rq = srm->_rd.data;
+
+	if (writer) {
+		if (wq.len) vf_count("state:setmode-writer-with-queued-data", 1);
+		if (es.done) vf_count("state:setmode-writer-with-unflushed-frames", 1);
+		if (es.scratch) vf_count("state:setmode-writer-with-open-message", 1);
+	} else if (rq.len && ds.data.msg < 0 && (ds._ctx || ds.data.len)) vf_count("state:setmode-reader-with-partial-frame", 1);
+	else if (ds.data.msg >= 0) vf_count("state:setmode-reader-with-waiting-message", 1);
+	vf_at("mpt_stream_setmode");
+	vf_count(writer ? "mpt_stream_setmode(writer, same mode)" : "mpt_stream_setmode(reader, same mode)", 1);
+	ret = mpt_stream_setmode(srm, mode);
+	vf_fp_u64(0x9000000 | writer);
+	vf_log("setmode(%s, %#x) = %d | %s | %s", writer ? "S" : "R", mode, ret, sdesc(), rdesc());
+	/* (the call clears MesgActive/FlushLine, bits 2 and 3: not part of what is asked here) */
+	VF_CHECK(ret >= 0 && ((mpt_stream_flags(&srm->_info) ^ flags) & ~0xc) == 0, "model:stream_setmode:flags", "setmode(%#x) = %d, flags %#x -> %#x", mode, ret, flags, mpt_stream_flags(&srm->_info));
+	VF_CHECK(!memcmp(&es, &srm->_wd._state, sizeof(es)) && !memcmp(&wq, &srm->_wd.data, sizeof(wq)), "model:stream_setmode:write-state-changed",
+	         "re-selecting mode %#x changed the write side: done %zu -> %zu, scratch %zu -> %zu, queue len %zu -> %zu", mode, es.done, srm->_wd._state.done,
+	         es.scratch, srm->_wd._state.scratch, wq.len, srm->_wd.data.len);
+	VF_CHECK(!memcmp(&ds, &srm->_rd._state, sizeof(ds)) && !memcmp(&rq, &srm->_rd.data, sizeof(rq)), "model:stream_setmode:read-state-changed",
+	         "re-selecting mode %#x changed the read side: ctx %#lx -> %#lx, curr %zu -> %zu, pos %zu -> %zu, len %zu -> %zu, msg %zd -> %zd, queue len %zu -> %zu", mode,
+	         (unsigned long) ds._ctx, (unsigned long) srm->_rd._state._ctx, ds.curr, srm->_rd._state.curr, ds.data.pos, srm->_rd._state.data.pos,
+	         ds.data.len, srm->_rd._state.data.len, ds.data.msg, srm->_rd._state.data.msg, rq.len, srm->_rd.data.len);
+	if (writer) inv_send("mpt_stream_setmode"); else inv_recv("mpt_stream_setmode");
+}
+
 /* ------------------------------------------------------------------ case */
 static void case_free(void)
 {
@@ -474,7 +603,8 @@ static void case_free(void)
 	mpt_stream_close(&C.S);
 	if (C.rin) C.rin->_vptr->meta.unref((void *) C.rin);
 	else mpt_stream_close(&C.R);
-	close(C.a[0]); close(C.b[1]);
+	close(C.a[0]);
+	if (!C.hung_up) close(C.b[1]);
 }
 static void run_case(uint64_t idx, vf_rng *r)
 {
@@ -484,6 +614,7 @@ static void run_case(uint64_t idx, vf_rng *r)
 	size_t total = 0;
 	unsigned long limit;
 	int i, ret, fr = (int) (idx % 4), use_input = (int) ((idx / 4) % 2);
+	unsigned ws;
 
 	memset(&C, 0, sizeof(C));
 	C.fr = fr;
@@ -496,6 +627,7 @@ static void run_case(uint64_t idx, vf_rng *r)
 		(void) setsockopt(C.a[1], SOL_SOCKET, SO_SNDBUF, &sz, sizeof(sz));
 		(void) setsockopt(C.b[1], SOL_SOCKET, SO_SNDBUF, &sz, sizeof(sz));
 		vf_count("transport:socketpair", 1);
+		C.sockets = 1;
 	} else {
 		if (pipe2(C.a, O_NONBLOCK | O_CLOEXEC) < 0 || pipe2(C.b, O_NONBLOCK | O_CLOEXEC) < 0) vf_inconclusive("pipe2: %s", strerror(errno));
 		/* smallest transport the kernel offers (one page) on the sender side in most cases */
@@ -522,7 +654,8 @@ static void run_case(uint64_t idx, vf_rng *r)
 		ret = mpt_stream_dopen(&C.R, &sock, MPT_STREAMFLAG(Read) | MPT_STREAMFLAG(ReadBuf));
 		if (ret < 0) vf_inconclusive("dopen(read end) = %d: %s", ret, strerror(errno));
 		VF_CHECK(C.R._rd._dec == framing[fr].dec && _mpt_stream_fread(&C.R._info) == C.b[0], "model:stream_dopen:codec-lost", "dopen dropped the configured codec / descriptor");
-		vf_count("receiver:stream-dispatch", 1);
+		C.polled = (int) ((idx / 8) % 2);
+		vf_count(C.polled ? "receiver:stream-dispatch-driven-by-poll" : "receiver:stream-dispatch", 1);
 	}
 	VF_CHECK(C.S._wd._enc == framing[fr].enc && _mpt_stream_fwrite(&C.S._info) == C.a[1], "model:stream_dopen:descriptor",
 	         "sender: codec lost or descriptor %d, expected %d", _mpt_stream_fwrite(&C.S._info), C.a[1]);
@@ -544,12 +677,20 @@ static void run_case(uint64_t idx, vf_rng *r)
 	C.fly = malloc(FLYMAX);
 	C.wire = malloc(FLYMAX);
 	wp = 1 + vf_below(r, 8); wf = 1 + vf_below(r, 4); wm = 1 + vf_below(r, 8); wr = 1 + vf_below(r, 8);
-	vf_fp_u64(fr);
+	ws = vf_below(r, 3);
+	vf_fp_u64(fr); vf_fp_u64(use_input); vf_fp_u64(C.polled);
 	vf_log("case: %s %d messages, %zu bytes, weights %u/%u/%u/%u", framing[fr].name, C.nmsg, total, wp, wf, wm, wr);
 	limit = 64 * (total + 16 * C.nmsg) + 8192;
 
 	while (C.received < C.nmsg) {
-		unsigned k = vf_below(r, wp + wf + wm + wr);
+		unsigned k = vf_below(r, wp + wf + wm + wr + ws);
+		/* sender done, everything moved: the peer may go away before the reader has looked at all of it */
+		if (!C.hung_up && (!C.sockets || C02_HANGUP_ON_SOCKETS) && C.terminated == C.nmsg && !C.S._wd.data.len && !fly_len() && C.nwire == C.pushed_done && vf_chance(r, 1, 8)) {
+			close(C.b[1]);
+			C.hung_up = 1;
+			vf_count("transport:peer-closed-before-all-was-dispatched", 1);
+			vf_log("peer closes the receiver's transport");
+		}
 		if (++C.steps > limit)
 			vf_fail("model:schedule:no-termination", "%lu steps: sent %d/%d, delimiters delivered %d, dispatched %d; in flight %zu; %s | %s", C.steps,
 			        C.terminated, C.nmsg, C.delivered, C.received, fly_len(), sdesc(), rdesc());
@@ -558,8 +699,10 @@ static void run_case(uint64_t idx, vf_rng *r)
 			else if (C.S._wd.data.len) do_flush();
 		}
 		else if (k < wp + wf) do_flush();
-		else if (k < wp + wf + wm) do_pump(r);
-		else do_receive(r);
+		else if (k < wp + wf + wm) { if (!C.hung_up) do_pump(r); }
+		else if (k < wp + wf + wm + wr) { if (C.polled) do_receive_polled(r); else do_receive(r); }
+		else if (vf_chance(r, 1, 2)) do_setmode(1);
+		else if (!C.rin) do_setmode(0);
 	}
 	/* conservation */
 	VF_CHECK(C.cur == C.nmsg && C.terminated == C.nmsg, "model:schedule:received-more-than-sent", "dispatched %d, terminated %d", C.received, C.terminated);
